@@ -123,7 +123,9 @@ def read_files(mode, files):
 
 def judge(res):
     """-> None or signature for one file's reader result"""
-    for typ in ("file", "simple"):
+    for typ in ("file", "simple", "class"):
+        if typ not in res:
+            continue
         v = res[typ]["verdict"]
         if v == "silent-INCOMPLETE":
             return f"import-{typ}:opens-silently-with-{res[typ].get('len')}-mpo-{res[typ].get('caps')}-caps({res[typ].get('dyn', '')})"
@@ -151,7 +153,7 @@ def hard_part(mode, shard_info):
             key = res["file"]["verdict"] + "/" + res["simple"]["verdict"]
             hist[key] = hist.get(key, 0) + 1
             sig = judge(res)
-            if k == L and (res["file"]["verdict"] != "silent-complete" or res["simple"]["verdict"] != "silent-complete"):
+            if k == L and any(res[t_]["verdict"] != "silent-complete" for t_ in ("file", "simple", "class") if t_ in res):
                 vio.append((f"{mode}|clean-close|{key}", f"cleanly closed file: {res}", {"mode": mode, "death": "none"}))
             elif sig:
                 vio.append((f"{mode}|hard-death|{sig}", f"{mode}: writer killed after {k} of {L} write calls: {res}",
